@@ -344,6 +344,22 @@ pub fn scenarios(tier: Tier) -> Vec<Sc> {
                 out.push(Sc { role_server: role, stalls: m.clone(), order });
             }
         }
+        // many stalled streams (the quantifier is "every k >= 1": any fixed pool of pending-header slots, permits or
+        // queue places shared by the stalled streams is exhausted by some k below the transport's stream limit),
+        // of one kind and alternating kinds (a pool shared across kinds)
+        let big: &[usize] = if thorough { &[8, 16, 17, 32, 64, 90] } else { &[17, 40] };
+        let big_pos: &[Pos] = if thorough { &ALL_POS } else { &[Pos::TypeHalf, Pos::SidHalf, Pos::Preamble, Pos::AcceptedUnread] };
+        for &k in big {
+            for &pos in big_pos {
+                for bidi in [false, true] {
+                    out.push(Sc { role_server: role, stalls: vec![(bidi, pos); k], order: 0 });
+                }
+                if pos.incomplete() {
+                    out.push(Sc { role_server: role, stalls: (0..k).map(|i| (i % 2 == 0, pos)).collect(), order: 0 });
+                    out.push(Sc { role_server: role, stalls: (0..k).map(|i| (i % 2 == 1, pos)).collect(), order: 2 });
+                }
+            }
+        }
         if thorough {
             for p1 in ALL_POS {
                 for p2 in ALL_POS {
@@ -364,7 +380,7 @@ pub fn run_check(args: &Args) -> i32 {
     let rep = Report::new(
         args,
         "fault_enumeration",
-        "fault = k in 1..5(6) stalled peer-opened streams of kind uni/bidi at one of 7 stall positions (no byte; half type; type only; half session id; complete preamble then silence; preamble + one flow-control window unread; accepted by the application and not read) x opening order (stalled first / healthy-unread streams first / healthy streams in between) x role, plus mixed kinds and positions; after the faults the peer opens one healthy uni and one healthy bidi stream, sends a datagram and finally a clean close capsule while the application keeps accepting; horizon 10 s virtual with keep-alive. All scenarios distinct and non-trivial (>= 1 stalled stream)",
+        "fault = k in 1..5(6) and k in {17, 40} (thorough {8, 16, 17, 32, 64, 90}; same kind and alternating kinds) stalled peer-opened streams of kind uni/bidi at one of 7 stall positions (no byte; half type; type only; half session id; complete preamble then silence; preamble + one flow-control window unread; accepted by the application and not read) x opening order (stalled first / healthy-unread streams first / healthy streams in between) x role, plus mixed kinds and positions; after the faults the peer opens one healthy uni and one healthy bidi stream, sends a datagram and finally a clean close capsule while the application keeps accepting; horizon 10 s virtual with keep-alive. All scenarios distinct and non-trivial (>= 1 stalled stream)",
     );
     rep.assume("quiescence at the virtual horizon means 'never': nothing is in flight and only keep-alives remain");
     let scs = scenarios(args.tier);
